@@ -580,6 +580,8 @@ func countCallSites(fn *ssa.Function, key string) int {
 					n++
 				} else if sf == nil && !c.IsInvoke() && "dynamic:"+typeKeyString(c.Value.Type()) == key {
 					n++ // a call of a func value
+				} else if nt, ok := c.Value.Type().(*types.Named); ok && sf == nil && !c.IsInvoke() && "type:"+typeKeyString(nt) == key {
+					n++ // a call of a value of a named func type
 				}
 			}
 		}
